@@ -307,7 +307,7 @@ def check_one(acc, env, nmac, config, placement, iname, plain, mode, fn, shadow_
         got = real(inp, module=M, macros=extras)
     except BaseException as e:
         acc.disagree("expansion-raised", case, f"{type(e).__name__}: {str(e)[:300]}; reference result {to_text_safe(want)}",
-                     sig=f"raised:{type(e).__name__}:{fn}:{head}:{first}", exc=type(e).__name__, fn=fn, mode=mode, input=head, first=first)
+                     sig=f"raised:{type(e).__name__}:{fn}:{head}", exc=type(e).__name__, fn=fn, mode=mode, input=head, first=first)
         return
     got_ticks = list(env["ticks"])
     after = snap(inp)
@@ -315,11 +315,11 @@ def check_one(acc, env, nmac, config, placement, iname, plain, mode, fn, shadow_
     if gp != want:
         acc.disagree("wrong-expansion", case,
                      f"{fn} of {to_text(plain)}: reference {to_text_safe(want)} after macros {want_ticks} ({outcome}); hy returned {to_text_safe(gp)} after macros {got_ticks}",
-                     sig=f"result:{fn}:{outcome.split('-after')[0]}:{head}:{first}", fn=fn, mode=mode, input=head, first=first, outcome=outcome)
+                     sig=f"result:{fn}:{outcome.split('-after')[0]}:{head}", fn=fn, mode=mode, input=head, first=first, outcome=outcome)
     elif got_ticks != want_ticks:
         acc.disagree("wrong-macro-invocations", case,
                      f"{fn} of {to_text(plain)}: same result {to_text_safe(want)} but macros invoked {got_ticks}, reference {want_ticks}",
-                     sig=f"ticks:{fn}:{head}:{first}", fn=fn, mode=mode, input=head, first=first)
+                     sig=f"ticks:{fn}:{head}", fn=fn, mode=mode, input=head, first=first)
     d = snap_diff(before, after)
     if d:
         what = "positions-filled-in" if "attributes {}" in d and "_start_line" in d else "other"
